@@ -72,3 +72,12 @@ func verifObject(name string, nkinds, maxLen int) (Object, int) {
 	}
 	return verifScalar(name, k), k
 }
+
+// Exported wrappers for harnesses in other packages of the module.
+func VerifScalar(name string, k int) Object           { return verifScalar(name, k) }
+func VerifSameObject(a, b Object) bool                { return verifSameObject(a, b) }
+func VerifRunBC(bc *Bytecode, args ...Object) (Object, error, string) {
+	o := verifRunBC(bc, nil, args...)
+	return o.val, o.err, o.out
+}
+func VerifSameError(a, b error) bool { return verifSameError(a, b) }
